@@ -196,6 +196,7 @@ def main(argv):
             'bounded_note': 'bounded stand-ins are listed with their bound and are never counted under obligations/discharged',
             'verifier_level_checks': sum(o.checks for o in results),
             'functions_under_contract': sorted(set(ex.fns)),
+            'functions_under_contract_note': 'every pgcat function / carved block pasted (verbatim, re-extracted on this run) into the verification files of the units run for this property, callees included; which of them an obligation is about is stated in that obligation\'s meaning under samples — a function listed here is not thereby claimed proved',
             'samples': [o.j() for o in results],
             'units': infos,
             'solver_time_s': round(sum(i.get('smt_s', 0) + i.get('solver_s', 0) for i in infos), 3),
